@@ -60,7 +60,8 @@ WAll == WCore \o <<"ProofOfAmount", "ProofOfNF", "BucketProofOfAmount", "BucketP
 WProofs == <<"Withdraw", "Withdraw", "WithdrawNF", "WithdrawNF", "TakeFromWorktop", "TakeAll", "TakeAll", "TakeNF", "ReturnToWorktop", "Deposit", "DepositBatch",
              "ProofOfAmount", "ProofOfAmount", "ProofOfNF", "ProofOfNF", "BucketProofOfAmount", "BucketProofOfAmount", "BucketProofOfAll", "BucketProofOfNF", "BucketProofOfNF",
              "PopFromAuthZone", "PopFromAuthZone", "PushToAuthZone", "CloneProof", "CloneProof", "CloneProof", "DropProof", "DropProof", "DropProof",
-             "DropNamedProofs", "DropAuthZoneRegularProofs", "Recall", "RecallNF", "BurnInAccount", "BurnNFInAccount", "Burn">>
+             "DropNamedProofs", "DropAuthZoneRegularProofs", "Recall", "RecallNF", "BurnInAccount", "BurnNFInAccount", "Burn",
+             "AzProofOfAmount", "AzProofOfAmount", "AzProofOfAmount", "AzProofOfAll", "AzProofOfNF", "AzProofOfNF">>
 WNF == <<"MintNF", "MintNF", "MintNF", "MintRuid", "MintRuid", "TakeAll", "TakeAll", "Burn", "Burn", "BurnNFInAccount", "BurnNFInAccount", "DepositBatch", "DepositBatch",
          "DepositBatch", "UpdateNFData", "UpdateNFData", "WithdrawNF", "Deposit">>
 \* ---- boundary scripts (GenLedger BSpec)
@@ -92,7 +93,8 @@ Pop_ == I("PopFromAuthZone", "", "", 0, {}, 0, "", 0)
 Cl_(k) == I("CloneProof", "", "", 0, {}, k, "", 0)
 Dr_(k) == I("DropProof", "", "", 0, {}, k, "", 0)
 Up_(x) == I("UpdateNFData", "", "N", 0, {}, x, "m", 1)
-Sc(n, items, ops, res) == [name |-> n, items |-> items, ops |-> ops, res |-> res]
+ScA(n, items, ops, res, acc) == [name |-> n, items |-> items, ops |-> ops, res |-> res, acc |-> acc]
+Sc(n, items, ops, res) == ScA(n, items, ops, res, {"a1", "a2"})
 LeaveF == {"Withdraw", "Recall", "BurnInAccount", "ProofOfAmount"}
 BucketUse == {"Deposit", "Burn", "ReturnToWorktop"}
 NFHist == {"MintNF", "MintNFWrongType", "MintRuid", "UpdateNFData", "WithdrawNF", "BurnNFInAccount", "RecallNF", "ProofOfNF"}
@@ -141,6 +143,52 @@ ScX == {Sc("x1", <<DAP_>>, LeaveF \cup {"WithdrawNF", "ProofOfNF", "DepositBatch
         Sc("x4", <<W_("a1", 4), TA_("F"), BP_(1, 2), Rt_(1), E_>>, {"Withdraw"}, {"F"}),
         Sc("x5", <<W_("a1", 4), T_(0), E_>>, {"Withdraw"}, {"F"}),
         Sc("x6", <<W_("a1", 4), TA_("F"), DAP_>>, {"Deposit", "DepositBatch", "ReturnToWorktop", "Burn"}, {"F"})}
+\* ---- proofs composed by the auth zone from overlapping base proofs (universe Z: a1 holds 4 granules and ids 1,2,3)
+LedZ == [vault |-> [a1 |-> [F |-> FC(8), N |-> NC({1, 2, 3})], a2 |-> [F |-> FC(2), N |-> C0]],
+         supply |-> [F |-> 10, N |-> 6], data |-> [N |-> Dt({1, 2, 3})], ever |-> [N |-> {1, 2, 3}], ctr |-> [N |-> 0]]
+InitZ == {LedZ}
+AZ_(n) == I("AzProofOfAmount", "", "F", n, {}, 0, "", 0)
+AZN_(s) == I("AzProofOfNF", "", "N", 0, s, 0, "", 0)
+DZ_ == I("DropAuthZoneRegularProofs", "", "", 0, {}, 0, "", 0)
+DSig_ == I("DropAuthZoneSignatureProofs", "", "", 0, {}, 0, "", 0)
+Psh_(k) == I("PushToAuthZone", "", "", 0, {}, k, "", 0)
+Bases == {<<2, 6>>, <<6, 2>>, <<4, 4>>, <<2, 4, 6>>, <<6, 4, 2>>}
+BaseItems(b) == [k \in DOMAIN b |-> PA_("a1", b[k])]
+\* after the composition (named proof 1): 0 nothing, 1 drop the last base proof, 2 drop the first one, 3 drop all base proofs,
+\* 4 drop everything incl. the signature proofs, 5 drop all base proofs and the composed one
+DropsZ(d) == CASE d = 0 -> <<>> [] d = 1 -> <<Pop_, Dr_(2)>> [] d = 2 -> <<Pop_, Pop_, Dr_(3)>> [] d = 3 -> <<DZ_>>
+               [] d = 4 -> <<DAP_>> [] d = 5 -> <<DZ_, Dr_(1)>>
+SeqName(b) == IF Len(b) = 2 THEN ToString(b[1]) \o ToString(b[2]) ELSE ToString(b[1]) \o ToString(b[2]) \o ToString(b[3])
+LeaveZ == {"Withdraw", "Recall", "BurnInAccount"}
+ComposeOps == {"AzProofOfAmount", "AzProofOfAll", "AzProofOfNF"}
+ScZdrop == {ScA("zd-" \o SeqName(x[1]) \o "-n" \o ToString(x[2]) \o "-d" \o ToString(x[3]),
+                BaseItems(x[1]) \o <<AZ_(x[2])>> \o DropsZ(x[3]), LeaveZ, {"F"}, {"a1"})
+            : x \in {y \in Bases \X {2, 4, 6, 8} \X (0..5) : (y[2] > MaxSet({y[1][k] : k \in DOMAIN y[1]}) => y[3] = 0) /\ (Len(y[1]) = 3 => y[3] \in {0, 3})}}
+NBases == {<<{1}, {1, 2}>>, <<{1, 2}, {1}>>}
+ScZnf == {ScA("zn-" \o ToString(x[1][1]) \o ToString(x[1][2]) \o "-c" \o ToString(x[2]) \o "-d" \o ToString(x[3]),
+              <<PN_("a1", x[1][1]), PN_("a1", x[1][2]), AZN_(x[2])>> \o DropsZ(x[3]),
+              {"WithdrawNF", "RecallNF", "BurnNFInAccount"}, {"N"}, {"a1"})
+          : x \in NBases \X {{1}, {2}, {1, 2}} \X {0, 1, 3}}
+BucketZone == <<W_("a1", 8), TA_("F"), BP_(1, 2), BP_(1, 6), Psh_(1), Psh_(2)>>
+ScZcompose ==
+  {Sc("zc1", <<PA_("a1", 2), PA_("a1", 6)>>, ComposeOps \cup {"PopFromAuthZone", "CloneProof"}, {"F", "N"}),
+   Sc("zc2", <<PA_("a1", 6), PA_("a1", 2)>>, ComposeOps, {"F", "N"}),
+   Sc("zc3", <<>>, ComposeOps, {"F", "N"}),
+   Sc("zc4", <<PA_("a1", 2), PA_("a2", 2)>>, ComposeOps, {"F"}),
+   Sc("zc5", <<PN_("a1", {1}), PA_("a1", 2)>>, ComposeOps, {"F", "N"}),
+   Sc("zc6", <<PA_("a1", 2), PN_("a1", {1})>>, ComposeOps, {"F", "N"}),
+   Sc("zc7", BucketZone, ComposeOps, {"F"}),
+   Sc("zc8", <<PN_("a1", {1}), PN_("a1", {1, 2})>>, ComposeOps, {"N"}),
+   Sc("zc9", <<PN_("a1", {1, 2}), PN_("a1", {3})>>, ComposeOps, {"N"}),
+   Sc("zc10", <<PA_("a1", 2), PA_("a1", 6), DSig_>>, ComposeOps \cup {"Withdraw", "PopFromAuthZone"}, {"F"}),
+   Sc("zc11", <<PA_("a1", 2), PA_("a1", 6), AZ_(6), Pop_, Dr_(2)>>, ComposeOps \cup {"CloneProof", "DropProof", "PushToAuthZone"}, {"F"}),
+   Sc("zc12", <<PA_("a1", 2), PA_("a2", 2), AZ_(4), DZ_>>, LeaveZ \cup {"CloneProof", "DropProof"}, {"F"}),
+   Sc("zc13", <<PA_("a1", 2), PA_("a2", 2), AZ_(4), DZ_, Cl_(1), Dr_(1)>>, LeaveZ, {"F"})}
+ScZbucket == {Sc("zb-n" \o ToString(x[1]) \o "-d" \o ToString(x[2]),
+                 BucketZone \o <<AZ_(x[1])>> \o (CASE x[2] = 0 -> <<>> [] x[2] = 3 -> <<DZ_>> [] x[2] = 5 -> <<DZ_, Dr_(3)>>),
+                 BucketUse \cup {"BucketProofOfAmount", "BucketProofOfAll"}, {"F"})
+              : x \in {2, 6} \X {0, 3, 5}}
+ScZ == ScZdrop \cup ScZnf \cup ScZcompose \cup ScZbucket
 ScC03 == ScF \cup {x \in ScW : x.name \in {"w0", "w1"}} \cup {x \in ScH : x.name \in {"h1", "h6"}}
 ScC04 == ScF \cup {x \in ScH : x.name \in {"h1", "h4", "u1", "u3"}}
 ScWX == ScW \cup ScX
